@@ -1025,10 +1025,9 @@ class ReducedDensityMatrixPropagator(MatrixData, Saveable):
                     rho2 = rho2 + rho1
                 rho1 = rho2    
 
-                if indxR < cutoff_indx - 1:                      
-                    indxR += stride
-                else:
-                    indxR = cutoff_indx
+                # the tensor is kept at its last computed point once the
+                # cut-off (or the end of its time axis) is reached
+                indxR = min(indxR + stride, cutoff_indx - 1)
 
                 
             pr.data[indx,:,:] = rho2
@@ -1230,10 +1229,9 @@ class ReducedDensityMatrixPropagator(MatrixData, Saveable):
                     
                 rho1 = rho2    
 
-                if indxR < cutoff_indx - 1:                      
-                    indxR += stride
-                else:
-                    indxR = cutoff_indx
+                # the tensor is kept at its last computed point once the
+                # cut-off (or the end of its time axis) is reached
+                indxR = min(indxR + stride, cutoff_indx - 1)
 
                 
             pr.data[indx,:,:] = rho2
@@ -1360,10 +1358,9 @@ class ReducedDensityMatrixPropagator(MatrixData, Saveable):
                     rho2 = rho2 + rho1
                 rho1 = rho2    
 
-                if indxR < cutoff_indx - 1:                      
-                    indxR += stride
-                else:
-                    indxR = cutoff_indx
+                # the tensor is kept at its last computed point once the
+                # cut-off (or the end of its time axis) is reached
+                indxR = min(indxR + stride, cutoff_indx - 1)
 
                 
             pr.data[indx,:,:] = rho2
